@@ -50,6 +50,12 @@ package simple
 //@   loop 0
 //@     invariant [C01] gSSpawned == $i
 
+// The constructor: as many handlers are started as the inner discipline has slots.
+//@ func New
+//@   requires [C01] ghost-initial-state: gSSpawned == 0
+//@   modifies gSSpawned, gDivErr, gPerm, gInv, gClock
+//@   ensures [C01] as-many-handlers-as-slots: result1 == nil ==> (result0.priority != nil && gSSpawned == result0.priority.opts.HandlersQuantity && result0.priority.opts.HandlersQuantity == opts.HandlersQuantity)
+
 //@ func Opts.isValid
 //@   ensures [*] (result == nil) <==> (opts.Handle != nil)
 
